@@ -175,7 +175,7 @@ func runC01Enumerated(ctx *h.Ctx) {
 				return
 			}
 			in := ref.New(body, nil)
-			vm := &asm.VM{F: f, Sec: sec}
+			vm := &asm.VM{F: f, Sec: sec, UserTargets: userTargetsOf(g.Prog)}
 			dec := []int{}
 			paths := 0
 			for {
